@@ -494,6 +494,11 @@ class Densify(EnvironmentFilter):
         self._action  = action
         self._method  = method
 
+        self._lookup = self._make_lookup({})
+
+    def _make_lookup(self, known: dict) -> defaultdict:
+        n_feats = self._n_feats
+
         def generator():
             rng = CobaRandom(seed=1)
             while True:
@@ -503,7 +508,20 @@ class Densify(EnvironmentFilter):
         def factory(g=generator()):
             return next(g)
 
-        self._lookup = defaultdict(factory)
+        #every known key took one index from the generator
+        for _ in known: factory()
+
+        lookup = defaultdict(factory)
+        lookup.update(known)
+        return lookup
+
+    def __getstate__(self):
+        #the lookup's index generator can't be pickled so we send the keys it has handed out
+        return {**self.__dict__, '_lookup': dict(self._lookup)}
+
+    def __setstate__(self, state):
+        self.__dict__.update(state)
+        self._lookup = self._make_lookup(state['_lookup'])
 
     @property
     def params(self) -> Mapping[str, Any]:
